@@ -112,7 +112,7 @@ def run_verus_unit(res, unit_name, src_root, allow):
             return
         with cf.ThreadPoolExecutor(2) as ex:
             f_main = ex.submit(VU.run_verus, main_p)
-            f_twin = ex.submit(VU.run_verus, twin_p)
+            f_twin = ex.submit(VU.run_verus, twin_p, None, None, 1800, True)
             r_main, r_twin = f_main.result(), f_twin.result()
         # a compile / unsupported-construct error inside the BODY of an extracted function: demote that function and retry
         newly = None
